@@ -30,7 +30,7 @@ type c08Row struct {
 	Refusal int    `json:"refusal"` // 0 404, 1 redirect, 2 401
 	Mounted bool   `json:"mounted"`
 	Mount   string `json:"mount"`
-	Storage int    `json:"storage"` // 0 ok, 1 not-found, 2 error
+	Storage int    `json:"storage"` // 0 ok, 1 not-found, 2 error, 3 error on the request's first load only (a blip)
 	API     bool   `json:"api"`
 	Legacy  bool   `json:"legacy"` // use the deprecated boolean constructors where they can express the row
 }
@@ -49,6 +49,12 @@ func (s c08Store) Load(ctx context.Context, key string) (authboss.User, error) {
 		return nil, authboss.ErrUserNotFound
 	case 2:
 		return nil, errors.New("database unavailable")
+	case 3:
+		if pr, ok := ctx.Value(c08ProbeKey{}).(*c08Probe); ok {
+			if pr.loads++; pr.loads == 1 {
+				return nil, errors.New("connection reset")
+			}
+		}
 	}
 	if key == "known@x.io" {
 		return &harness.User{PID: key}, nil
@@ -81,6 +87,7 @@ var c08Mounts = []string{"", "/auth", "/a/b"}
 type c08Probe struct {
 	ran     bool
 	sawUser string
+	loads   int
 }
 
 type c08ProbeKey struct{}
@@ -193,7 +200,7 @@ func c08Run(c c08Case) *Violation {
 	switch {
 	case reqFail || !hasUser:
 		want = "refuse"
-	case row.Storage == 2:
+	case row.Storage >= 2:
 		want = "500"
 	case row.Storage == 1 || row.User == 2:
 		want = "refuse"
@@ -355,7 +362,7 @@ func c08Rows() []c08Row {
 					for ref := 0; ref < 3; ref++ {
 						for _, mounted := range []bool{false, true} {
 							for _, mount := range c08Mounts {
-								for sto := 0; sto < 3; sto++ {
+								for sto := 0; sto < 4; sto++ {
 									for _, api := range []bool{false, true} {
 										rows = append(rows, c08Row{User: user, Half: half, TwoFA: two, Reqs: reqs, Refusal: ref,
 											Mounted: mounted, Mount: mount, Storage: sto, API: api})
